@@ -72,15 +72,17 @@ theorem C05_exactly_once (registered : List String) (r : Request) (m : List (Str
     (phaseTwo registered r).filter (fun e => match e with | .invoke _ _ _ _ => true | _ => false)
       = [.invoke r.commit r.xid r.branchId (some m)] := by
   simp only [phaseTwo, hr, hd]
-  cases r.userFails <;> simp [ctxOf]
+  cases r.user.done <;> simp [ctxOf]
 
-/-- the reply says committed/rollbacked if and only if the user method returned no error; a success
-    status is never reported for a failed method, for an unknown resource or for unreadable data -/
+/-- the reply says committed/rollbacked if and only if the user method returned no error — or returned the fence
+    driver's "nothing to do" (the phase has been applied before: anything else would make the coordinator repeat
+    the delivery for ever); a success status is never reported for a failed method, for an unknown resource or for
+    unreadable data -/
 theorem C05_status_iff (registered : List String) (r : Request) :
     (∃ e ∈ phaseTwo registered r, ∃ i c x b, e = Ev.respond i c x b true) ↔
-    (known registered r = true ∧ r.data ≠ .malformed ∧ r.userFails = false) := by
+    (known registered r = true ∧ r.data ≠ .malformed ∧ (r.user = .ok ∨ r.user = .alreadyApplied)) := by
   simp only [phaseTwo]
-  cases hk : known registered r <;> cases hd : r.data <;> cases hu : r.userFails <;> simp
+  cases hk : known registered r <;> cases hd : r.data <;> cases hu : r.user <;> simp [UserOutcome.done]
   all_goals (exact ⟨r.msgId, by cases r.commit <;> simp⟩)
 
 /-- an unknown resource, or unreadable application data, runs no user code at all -/
@@ -98,7 +100,7 @@ theorem C05_reply_addressed (registered : List String) (r : Request) :
   intro e he i c x b s hr
   subst hr
   simp only [phaseTwo] at he
-  cases hk : known registered r <;> cases hd : r.data <;> cases hu : r.userFails <;>
+  cases hk : known registered r <;> cases hd : r.data <;> cases hu : r.user.done <;>
     rw [hk, hd, hu] at he <;> simp at he
   all_goals exact ⟨he.1, he.2.1, he.2.2.1, he.2.2.2.1⟩
 
